@@ -38,6 +38,13 @@ SPECS = {
         "cinit": "CInit", "obligations": _STD + [_ACT],
         "devs": [("CInitDev1", "act", "DEV_GlobalPrecision"), ("CInitDev2", "step", "DEV_AccumulatingRoot"),
                  ("CInitDev3", "act", "DEV_NoTruncate")]},
+    "APA_Cache": {
+        "cinit": "CInit", "obligations": _STD + [_ACT],
+        "devs": [("CInitDev1", "step", "DEV_NoInvalidateOnPredictionTR"), ("CInitDev2", "step", "DEV_NoReindexOnNetworkTR"),
+                 ("CInitDev3", "step", "DEV_NoInvalidateCycle"), ("CInitDev4", "step", "DEV_MergeRebuildOnlyIfAll")]},
+    "APA_TrafficLight": {
+        "cinit": "CInit", "obligations": _STD + [_ACT],
+        "devs": [("CInitDev1", "prop", "DEV_TruncatedRemainder")]},
 }
 
 
@@ -47,7 +54,7 @@ def run(module, init, inv, length, cinit=None, tag="run", timeout=900, xmx="6g")
     out_dir = os.path.join(OUT, short, tag)
     shutil.rmtree(out_dir, ignore_errors=True)
     os.makedirs(out_dir, exist_ok=True)
-    cmd = [APALACHE, "check", "--init=" + init, "--inv=" + inv, "--length=%d" % length, "--out-dir=" + out_dir,
+    cmd = [APALACHE, "check", "--no-deadlock", "--init=" + init, "--inv=" + inv, "--length=%d" % length, "--out-dir=" + out_dir,
            "--run-dir=" + os.path.join(out_dir, "last")]
     if cinit:
         cmd.append("--cinit=" + cinit)
